@@ -59,6 +59,10 @@ package logic
 //   4. assembler.go resolveLabels: v13 backward varint jump measured from lr.position -> roundtrip/check
 //   5. assembler.go disassemble immInt8 printed unsigned                              -> reasm-error (frame_bury 255)
 //
+//  F. branch distances at the encoding limits: a padding body of exactly n bytes between branch
+//     and label, forward and backward, n in 62..66, 126..130, 8188..8194, 16382..16386,
+//     32764..32770, 65533..65537, for b/bz/bnz/callsub/switch/match at v4, 8, 12, 13, 14 (oracle 1+2).
+//
 // Known findings kept visible under stable keys: C33:reasm-error:cblock-behind-unreferenced-label
 // (part E) and C33:assembler-panic:pseudo:int+loads (part B: `int 16384; loads` panics typeLoads).
 //
@@ -911,6 +915,74 @@ func c33PartE(e *c33Env) {
 	e.r.Set("E_programs", len(items))
 }
 
+// ---------------------------------------------------------------------------------------------
+// F: branch distances at the encoding limits
+// ---------------------------------------------------------------------------------------------
+
+// c33Padding returns instructions (pushbytes/pop pairs) that assemble to exactly n bytes (n >= 3).
+func c33Padding(n int) string {
+	var sb strings.Builder
+	pair := func(size int) { // size = k+3 (k < 128) or k+4 (128 <= k <= 4096)
+		k := size - 3
+		if k >= 128 {
+			k = size - 4
+		}
+		sb.WriteString("pushbytes 0x" + strings.Repeat("61", k) + "\npop\n")
+	}
+	r := n
+	for r > 4100 {
+		chunk := 4004
+		if rest := r - chunk; rest < 3 || rest == 131 {
+			chunk = 3904
+		}
+		pair(chunk)
+		r -= chunk
+	}
+	pair(r) // 3..130 or 132..4100 (131 is not expressible and not requested)
+	return sb.String()
+}
+
+// c33PartF: a padding body of exactly n bytes between a branch and its label, forward and
+// backward, n around every limit of the two offset encodings (1/2/3-byte varint: 64, 8192;
+// int16: 32768; uint16: 65536), for b/bz/bnz/callsub/switch/match, versions 4, 8, 12, 13, 14.
+func c33PartF(e *c33Env) {
+	var ns []int
+	for _, rg := range [][2]int{{62, 66}, {126, 130}, {8188, 8194}, {16382, 16386}, {32764, 32770}, {65533, 65537}} {
+		for n := rg[0]; n <= rg[1]; n++ {
+			ns = append(ns, n)
+		}
+	}
+	type item struct {
+		v   uint64
+		src string
+		tag string
+	}
+	var items []item
+	for _, v := range []uint64{4, 8, 12, 13, LogicVersion} {
+		for _, br := range []string{"b", "bz", "bnz", "callsub", "switch", "match"} {
+			if _, ok := OpsByName[v][br]; !ok {
+				continue
+			}
+			for _, n := range ns {
+				pad := c33Padding(n)
+				items = append(items, item{v, c33Untyped + br + " LF\n" + pad + "LF:\nerr\n", "forward"})
+				items = append(items, item{v, c33Untyped + "LB:\n" + pad + br + " LB\n", "backward"})
+			}
+		}
+	}
+	var accepted atomic.Int64
+	e.r.ParallelFor(len(items), func(i int) {
+		it := items[i]
+		ok := e.roundTrip("F", it.src, it.v, "branch-distance", modeAny, false)
+		if ok {
+			accepted.Add(1)
+		}
+		e.r.Class(fmt.Sprintf("F|v%d|%s|accepted=%v", it.v, it.tag, ok))
+	})
+	e.r.Set("F_programs", len(items))
+	e.r.Set("F_assembler_accepted", accepted.Load())
+}
+
 func TestVerif_C33(t *testing.T) {
 	r := ve.NewRun("C33", "exploration")
 	e := c33NewEnv(r)
@@ -932,6 +1004,15 @@ func TestVerif_C33(t *testing.T) {
 	sort.Strings(never)
 	r.Set("A_opcodes_never_accepted", never)
 	c33PartE(e)
+	t0 = time.Now()
+	for _, n := range []int{3, 62, 64, 130, 132, 4100, 4101, 8192, 8135, 32768, 65536} {
+		ops, err := AssembleStringWithVersion(c33Padding(n), 4)
+		if err != nil || len(ops.Program) != n+1 {
+			t.Fatalf("harness: padding of %d bytes assembles to %d bytes (%v)", n, len(ops.Program)-1, err)
+		}
+	}
+	c33PartF(e)
+	r.Note("F took %.1fs", time.Since(t0).Seconds())
 	t0 = time.Now()
 	c33PartD(e, 0, 2)
 	r.Note("D(len<=2) took %.1fs", time.Since(t0).Seconds())
@@ -992,7 +1073,7 @@ func TestVerif_C33(t *testing.T) {
 			"B: all ordered pairs of opcode forms (2 forms per opcode; quick: 1 form, versions 1,3,4,8,13,14); " +
 			"C: all programs <= 4 instructions over the 14-element branch alphabet x every label placement within the slot caps " +
 			"(quick: n<=2 all, n=3 <=3 slots, n=4 <=2 slots on v8,13; thorough: n=3 <=4, n=4 <=2 slots on all versions, n=4 <=3 slots on v13); " +
-			"D: every byte string of length <= 2 per version; thorough additionally length 3 as far as the budget allows (last, versions interleaved)",
+			"F: branch/label distances around every offset-encoding limit; D: every byte string of length <= 2 per version; thorough additionally length 3 as far as the budget allows (last, versions interleaved)",
 		Exhaustive: true,
 	})
 	if len(never) > 0 {
